@@ -49,6 +49,7 @@ const NKIND: usize = 11;
 static TRANS: [AtomicU64; NKIND * NKIND] = [const { AtomicU64::new(0) }; NKIND * NKIND];
 static BYKIND: [AtomicU64; NKIND] = [const { AtomicU64::new(0) }; NKIND];
 static V_VERDICT_DISTURBED: AtomicU64 = AtomicU64::new(0);
+static VIA_DEFAULT: AtomicU64 = AtomicU64::new(0);
 
 /// an async function shared by all threads (kinds 7 and 8 fake its poll function)
 pub async fn shared_async(x: u32) -> u32 {
@@ -108,7 +109,18 @@ fn one_scope(tid: usize, kind: usize, epoch: u64, rng: &mut Rng, plain_probe: bo
     WAITERS.fetch_add(1, Ordering::SeqCst);
     // declared before the guard: dropped after the guard's destructor has returned
     let live;
-    let mut guard = if kind < 4 || kind >= 6 { G::I(InjectorPP::new()) } else { G::P(InjectorPP::prevent()) };
+    // every public way of obtaining an injector must take the guard: the constructor and the Default impl
+    let via_default = rng.chance(1, 4);
+    let mut guard = if kind < 4 || kind >= 6 {
+        G::I(if via_default {
+            VIA_DEFAULT.fetch_add(1, Ordering::Relaxed);
+            Default::default()
+        } else {
+            InjectorPP::new()
+        })
+    } else {
+        G::P(InjectorPP::prevent())
+    };
     WAITERS.fetch_sub(1, Ordering::SeqCst);
     LIVE_GUARDS.fetch_add(1, Ordering::SeqCst);
     live = LiveMark;
@@ -427,6 +439,7 @@ pub fn run(ctx: &Ctx) {
             .n("plain_cell_expected", PLAIN_SHADOW.load(Ordering::SeqCst))
             .b("final_handover_ok", final_ok)
             .b("tsan_build", tsan)
+            .n("injectors_obtained_through_Default", VIA_DEFAULT.load(Ordering::SeqCst))
             .n("wall_ms", t0.elapsed().as_millis())
             .arr_s("witness", &WITNESS.lock().unwrap().clone());
         let sig = if V_TWO_HOLDERS.load(Ordering::SeqCst) > 0 {
